@@ -1,5 +1,5 @@
 (* Entry point of the extracted model: one request (an s-expression) in, one out. *)
-Require Import BB.Base.Str BB.Base.Sx BB.Base.Xml BB.Model.PreParse BB.Model.Eid.
+Require Import BB.Base.Str BB.Base.Sx BB.Base.Xml BB.Model.PreParse BB.Model.Eid BB.Model.PegSyntax BB.Model.Peg BB.Gen.Grammar.
 Open Scope N_scope.
 
 Definition opt_str_sx (o : option str) : sx :=
@@ -24,6 +24,11 @@ Definition dispatch (req : sx) : sx :=
                 | Some (e', m) => L [xml_to_sx e'; L (map (fun kv => L [A (fst kv); A (snd kv)]) m)]
                 end
             end
+        | _ => sx_err "BadRequest"
+        end
+      else if str_eqb stage (of_string "peg") then
+        match args with
+        | [A rule; A text] => run_rule_sx akn_peg rule text
         | _ => sx_err "BadRequest"
         end
       else if str_eqb stage (of_string "clean_num") then
